@@ -91,6 +91,11 @@ theorem convert_assignments :
       "result.Nonce=txRaw.data.AccountNonce", "result.Source=sender.String()",
       "result.Target=txRaw.To().String()", "result.Type=types.TransactionTypeETHTX"] := rfl
 
+/-- JSON keys and their order in `Data` (`omitempty` never triggers: all four strings are non-empty). -/
+theorem contract_data_fields :
+    contractDataFields = ["GasPrice string json:'gasPrice,omitempty'", "GasLimit string json:'gasLimit,omitempty'",
+      "TransferValue string json:'transferValue,omitempty'", "AbiData string json:'abiData,omitempty'"] := rfl
+
 theorem signer_call_order :
     eip155SenderCalls = ["tx.Protected", "HomesteadSigner{}.Sender", "tx.ChainId().Cmp", "tx.ChainId",
       "new(big.Int).Sub", "new", "V.Sub", "recoverPlain", "s.Hash"] ∧
